@@ -547,6 +547,9 @@ func (f *File) Write(b []byte) (int, error) {
 		return 0, perr("write", "", ErrClosed)
 	}
 	if f.std != 0 {
+		if f.std == 3 && vrt.NativeTrace() {
+			vrt.TraceWrite(b)
+		}
 		return len(b), nil
 	}
 	if err := fail("write", f.name); err != nil {
